@@ -175,7 +175,7 @@ impl fmt::Display for Ty {
     }
 }
 
-fn hexi(z: i128) -> String {
+pub fn hexi(z: i128) -> String {
     if z < 0 {
         format!("-{:x}", z.unsigned_abs())
     } else {
